@@ -33,7 +33,7 @@ def run(pid, tier, seed, replay):
     else:
         rnd = random.Random(seed)
         picked = []
-        for cfg, nq, nt in (("MC_Expect.cfg", 2500, None), ("MC_Expect_2step.cfg", 600, 30000), ("MC_Expect_timeouts.cfg", 250, None)):
+        for cfg, nq, nt in (("MC_Expect.cfg", 2500, None), ("MC_Expect_2step.cfg", 600, 30000), ("MC_Expect_timeouts.cfg", 250, None), ("MC_Expect_candidates.cfg", 400, None)):
             d = vlib.fresh_dir(pid, "mc_" + cfg[:-4])
             r = vlib.tlc_ok(d, "MC_Expect.tla", cfg, workers=1, timeout=3000, heap="8g")
             gen += r["generated"]
